@@ -1,0 +1,14 @@
+//go:build verif
+
+// Assumed contracts on dependencies (standard library, golang.org/x). They are not verified;
+// every one of them is listed as a trusted assumption in the evidence files.
+
+package db
+
+//@ extern errors.New
+//@   pure
+//@   ensures result != nil
+
+//@ extern fmt.Errorf
+//@   pure
+//@   ensures result != nil
